@@ -189,6 +189,8 @@ def typed_attr(engine, st, fr, o, name, node):
     ty = o.ty
     if ty == "future":
         yield st, Bound(o, "future." + name)
+    elif ty == "anyfuture":
+        yield st, Bound(o, "anyfuture." + name)
     elif ty == "executor":
         yield st, Bound(o, "executor." + name)
     elif isinstance(ty, tuple) and ty[0] in ("list", "deque", "set", "dict", "tuple"):
